@@ -380,8 +380,16 @@ def compare(prop, ops_text, impl_out, model_out):
 
 
 def run_both(engine, prop, ops_text, timeout=1800):
-    rc1, impl_out, err1 = run_impl(engine, ops_text, timeout)
-    rc2, model_out, err2 = run_model(engine, ops_text, timeout)
+    try:
+        rc1, impl_out, err1 = run_impl(engine, ops_text, timeout)
+    except subprocess.TimeoutExpired as ex:
+        # the harness hung (e.g. a leaked lock): keep what it printed; the missing lines count as a crash
+        rc1, impl_out, err1 = 0, (ex.stdout or b"").decode() if isinstance(ex.stdout, bytes) else (ex.stdout or ""), "timeout"
+        impl_out += "\nX harness timed out after %ds\n" % timeout
+    try:
+        rc2, model_out, err2 = run_model(engine, ops_text, timeout)
+    except subprocess.TimeoutExpired:
+        rc2, model_out, err2 = 1, "", "model runner timed out"
     fails, stats = compare(prop, ops_text, impl_out, model_out)
     if rc1 != 0:
         fails.append(Failure("crash", "?", -1, "harness exited %d: %s" % (rc1, err1[-500:])))
@@ -562,7 +570,7 @@ def check(prop, tier):
     strong_found = []
     weak_found = []
     for bname, engine, ops_text in batches if okm else []:
-        fails, stats, impl_out, model_out = run_both(engine, prop, ops_text)
+        fails, stats, impl_out, model_out = run_both(engine, prop, ops_text, timeout=900 if tier == "quick" else 3600)
         for k in all_stats:
             all_stats[k] += stats[k]
         cases = split_cases(ops_text)
